@@ -241,7 +241,8 @@ fn k_rank_cmp_antisym() {
 }
 
 /// The comparator looks at class and number only: two auto-correct items tie (the stable sort then keeps the typed word's own entry
-/// in front of suffix-built ones) and two emoji tie (table order is kept).
+/// in front of suffix-built ones); two emoji are never put against their table numbers, whatever their text (table order is kept by
+/// a stable sort when they tie and by any sort when they compare by number).
 #[kani::proof]
 fn k_rank_cmp_ignores_text() {
     let n1: u8 = kani::any();
@@ -251,7 +252,9 @@ fn k_rank_cmp_ignores_text() {
     assert!(a.cmp(&b) == Ordering::Equal, "two First items tie whatever their text");
     let e1 = Rank::Emoji(String::from("b"), n1);
     let e2 = Rank::Emoji(String::from("a"), n2);
-    assert!(e1.cmp(&e2) == Ordering::Equal, "two emoji tie (table order is kept by the stable sort)");
+    let ce = e1.cmp(&e2);
+    assert!(ce == Ordering::Equal || ce == n1.cmp(&n2), "two emoji tie or follow their table numbers, whatever their text");
+    assert!(n1 != n2 || ce == Ordering::Equal, "two emoji with the same number tie");
     let o1 = Rank::Other(String::from("b"), n1);
     let o2 = Rank::Other(String::from("a"), n1);
     assert!(o1.cmp(&o2) == Ordering::Equal, "equal distances tie whatever the text");
